@@ -364,6 +364,8 @@ def oracle_watchdog(case, res):
                 out.append(("watchdog-warning-without-expiry", "call %d: overrun warning at %d us, only %d us after the last "
                             "reset with timeout %d us" % (k, op[1], op[1] - fed, timeout)))
                 break
+            # the rate limit is over the whole observed history: [warned] is never cleared, whatever
+            # reset()/enable()/setTimeout()/addEpoch() calls lie between two warnings
             if r and mono:
                 close = [u for u in warned if not (op[1] - u > 1000000)]
                 if close:
@@ -497,7 +499,42 @@ WOPS = ["reset", "enable", "disable", "setTimeout", "isExpired", "isExpired", "i
         "printIfExpired", "printIfExpired", "printIfExpired", "getTime", "getTimeout"]
 
 
+def gen_watchdog_loop(r):
+    """a control loop: feed, work (sometimes longer than the timeout), addEpoch, isExpired, printIfExpired --
+    consecutive overruns less than a second apart with a reset()/enable()/setTimeout() in between"""
+    to = r.choice([0, 1, 1000, 1001, 5000, 20000, 20000, 20001, 100000])
+    t = r.choice([0, 1, 999990, 1000000, 2500000, 5000000, r.randrange(0, 3000000)])
+    h = []
+    if r.random() < 0.3:
+        h.append(["printIfExpired", t])                     # before the first feed
+    p_over = r.choice([0.3, 0.6, 1.0])
+    for _ in range(r.choice([1, 2, 2, 3, 3, 4, 5])):
+        feed = r.choice(["reset", "reset", "reset", "enable", "setTimeout"])
+        h.append([feed, t, to] if feed == "setTimeout" else [feed, t])
+        if r.random() < 0.4:
+            t += r.choice([0, 1, to // 2])
+            h.append(["addEpoch", t, r.randrange(5)])
+        if r.random() < p_over:
+            t += to + r.choice([1, 1, 2, to // 4 + 1, r.randrange(1, 5000)])
+        else:
+            t += r.choice([0, max(to - 1, 0), to, to // 2])
+        if r.random() < 0.4:
+            h.append(["isExpired", t])
+        h.append(["printIfExpired", t])
+        if r.random() < 0.2:
+            t += r.choice([999999, 1000000, 1000001, 400000])
+            h.append(["printIfExpired", t])
+        t += r.choice([0, 1, 10, 1000, 20000])
+    return {"kind": "watchdog", "timeout": to, "h": h[:20]}
+
+
 def gen_watchdog(r):
+    if r.random() < 0.4:
+        return gen_watchdog_loop(r)
+    return gen_watchdog_any(r)
+
+
+def gen_watchdog_any(r):
     n = r.choice([1, 2, 3, 5, 8, 8, 12, 16])
     to = r.choice(TIMEOUTS)
     wild = r.random() < 0.06
@@ -576,6 +613,14 @@ def edge_cases():
                                                                    ["isExpired", 9000000 + d], ["setTimeout", 9000005, 1001], ["isExpired", 9000005 + 1001],
                                                                    ["isExpired", 9000005 + 1002], ["getTime", 9000006], ["getTimeout"], ["disable"],
                                                                    ["printIfExpired", 9000005 + 1002]]})
+    for to in (0, 20000):
+        for feed in ("reset", "enable", "setTimeout"):
+            for gap in (5, 999999 - to, 1000000 - to):
+                f = (lambda t: [feed, t, to]) if feed == "setTimeout" else (lambda t: [feed, t])
+                t1 = 5000000 + to + 1
+                out.append({"kind": "watchdog", "timeout": to, "h": [["reset", 5000000], ["printIfExpired", t1], f(t1 + gap - 1),
+                                                                       ["printIfExpired", t1 + gap + to], ["isExpired", t1 + gap + to],
+                                                                       f(t1 + gap + to + 1), ["printIfExpired", t1 + gap + 2 * to + 2]]})
     return out
 
 
@@ -669,15 +714,18 @@ def cases_file(kind, items):
 
 
 def model_says(ctx, case):
-    """the model's own results on one case, as printed by Coq (for the report only)"""
-    k = case["kind"]
-    fake = {"toggle": [False] * len(case["h"]), "debouncer": [None] * len(case["h"]), "filter": [False] * len(case["h"]),
-            "watchdog": [None] * len(case["h"])}[k]
-    lit = emit_case(case, fake)
-    fn = {"toggle": "let '(p, h, _) := c in toggle_run p h", "debouncer": "let '(p, h, _) := c in deb_run p h",
-          "filter": "let '(p, b, h, _) := c in pf_run p b h", "watchdog": "let '(t, h, _) := c in wd_run t h"}[k]
-    txt = HEADER + "Definition c : %s := %s.\nEval vm_compute in (%s).\n" % (CASE_TYPE[k][0], lit, fn)
+    """the model's own results on one case, as printed by Coq (for the report only; must never break the search)"""
     try:
+        k = case["kind"]
+        n = len(case["h"])
+        if k == "watchdog":
+            fake = [False if op[0] == "isExpired" else 0 if op[0] == "printIfExpired" else None for op in case["h"]]
+        else:
+            fake = {"toggle": [False] * n, "debouncer": [None] * n, "filter": [False] * n}[k]
+        lit = emit_case(case, fake)
+        fn = {"toggle": "let '(p, h, _) := c in toggle_run p h", "debouncer": "let '(p, h, _) := c in deb_run p h",
+              "filter": "let '(p, b, h, _) := c in pf_run p b h", "watchdog": "let '(t, h, _) := c in wd_run t h"}[k]
+        txt = HEADER + "Definition c : %s := %s.\nEval vm_compute in (%s).\n" % (CASE_TYPE[k][0], lit, fn)
         rc, out = ctx.coq_file("model_says", txt, timeout=120)
         return " ".join(out.split())[:1500] if rc == 0 else "(model evaluation failed)"
     except Exception as e:
@@ -720,7 +768,10 @@ def make_violation(env, ctx, case, clause, what, shrinked=True):
            "implementation_returned": [list(x) if isinstance(x, tuple) else x for x in res],
            "units": "watchdog times in microseconds; all other clock readings and periods in ticks of 1/64 s"}
     if ctx is not None:
-        obj["model_returns"] = model_says(ctx, case)
+        try:
+            obj["model_returns"] = model_says(ctx, case)
+        except Exception as e:      # the report text must never hide the failing input
+            obj["model_returns"] = "(not available: %r)" % e
     return obj
 
 
